@@ -106,6 +106,13 @@ package vm
 //@   ensures[constant;C01,C10] src == bytecode.AddrDS ==> result == (*ds)[addr]
 //@   ensures[only_stack_pops;C01,C09] src != bytecode.AddrStck ==> field[int](m, "sp") == old(field[int](m, "sp"))
 //
+// Context keys (C02: "children keyed by call depth and lexical id"): the key is depth * 2^15 xor id.
+// That this formula is injective for ids below 2^15 (what EncodeSrc admits) and depths below 2^49 is
+// lemma context_key_injective in types/bytecode (bit-vector arithmetic); here the function is checked
+// to compute exactly that formula of the whole call depth.
+//@ func hashContext [C02,C09] pure
+//@   ensures[key_formula;C02,C09] result == (uint64(m.CallDepth()) << 15) ^ uint64(id)
+//
 // deleteContext recycles a context and everything forked from it. Its postcondition is verified (a
 // recycled context must not carry registrations of its previous life); its frame is assumed
 // (tree-shaped context structure): the only child table it changes that the caller can still reach
